@@ -144,7 +144,8 @@ pub fn generate(rng: &mut Rng, thorough: bool) -> Vec<String> {
         if cal != "iso8601" {
             for era in ERAS {
                 for ey in [1i128, 2, 15, 16, 31, 32, 45, 46, 64, 65, 1868, 1869, 5500, 5501, 0, -1, 2567] {
-                    if thorough || rng.chance(1, 3) {
+                    // (every cell in every tier: each of these years is the first or the last year of some era)
+                    {
                         let code = rng.pick(&["M01", "M03", "M12"]);
                         v.push(format!("cal_res {cal} {era} {ey} - - {code} {}", rng.pick(&[1i128, 7, 28])));
                     }
